@@ -44,6 +44,11 @@ var costFamilies = []costFamily{
 	{"tabs and newlines", func(n int) (string, string) { return "", "http://h/" + rep("a\t\n", n) }},
 	{"ipv6 zeros", func(n int) (string, string) { return "", "http://[" + rep("0", n) + "::]/" }},
 	{"ipv4 parts", func(n int) (string, string) { return "", "http://" + rep("1.", n) + "1/" }},
+	{"nested escape in the path", func(n int) (string, string) { return "", "http://h/%" + rep("25", n) + "41" }},
+	{"nested escape in the query", func(n int) (string, string) { return "", "http://h/?a=%" + rep("25", n) + "41" }},
+	{"nested escape in the fragment", func(n int) (string, string) { return "", "http://h/#%" + rep("25", n) + "41" }},
+	{"many nested escapes", func(n int) (string, string) { return "", "http://h/" + rep("%252525252541", n) }},
+	{"dots in the host", func(n int) (string, string) { return "", "http://a" + rep(".", n) + "b/" }},
 	{"long IDN label", func(n int) (string, string) { return "", "http://" + rep("é", n) + ".b/" }},
 	{"many IDN labels", func(n int) (string, string) { return "", "http://" + rep("é.", n) + "b/" }},
 	{"IDN label over a wide code point range", func(n int) (string, string) { return "", "http://" + wideLabel(n) + ".b/" }},
@@ -104,10 +109,19 @@ func init() {
 				name string
 				p    url.Parser
 			}{{"default parser", url.NewParser()}, {"GoogleSafeBrowsing", canonicalizer.GoogleSafeBrowsing}, {"Semantic", canonicalizer.Semantic}}
-			limit := 6.0 // 4 x (1 + slack for a logarithmic factor and allocator granularity)
+			// per input byte, from the smallest to the largest size (a factor 16 in quick, 64 in thorough): quadratic growth
+			// multiplies it by 16 (64); a logarithmic factor, allocator size classes, and the buffers that library code keeps in
+			// pools between calls (regexp, fmt) stay well below 6. Consecutive sizes are not compared one by one: pooled
+			// buffers make single steps jump by a factor of 3 either way on the unchanged tree.
+			limit := 6.0
 			for _, pp := range parsers {
 				for _, f := range costFamilies {
 					var bs, os []uint64
+					{
+						// warm-up at the largest size, so that pools and lazily built tables are in their steady state
+						b, in := f.gen(ns[len(ns)-1])
+						measure(pp.p, b, in)
+					}
 					for _, n := range ns {
 						b, in := f.gen(n)
 						best, bestO := uint64(1<<62), uint64(1<<62)
@@ -124,13 +138,15 @@ func init() {
 						os = append(os, bestO)
 						c.Count(fmt.Sprintf("%s|%s|%d", pp.name, f.name, n), true, "family:"+f.name)
 					}
-					for k := 0; k+1 < len(ns); k++ {
-						rb := float64(bs[k+1]) / float64(bs[k]+1)
-						ro := float64(os[k+1]) / float64(os[k]+1)
+					{
+						k, l := 0, len(ns)-1
+						scale := float64(ns[l]) / float64(ns[k])
+						rb := float64(bs[l]) / float64(bs[k]+1) / scale
+						ro := float64(os[l]) / float64(os[k]+1) / scale
 						if rb > limit || ro > limit {
-							c.Report(Finding{Class: "violation", What: fmt.Sprintf("allocation grows faster than linearly for family %q under %s: n=%d -> %d bytes / %d objects, n=%d -> %d bytes / %d objects (ratios %.1f / %.1f, limit %.1f)",
-								f.name, pp.name, ns[k], bs[k], os[k], ns[k+1], bs[k+1], os[k+1], rb, ro, limit),
-								Case: Case{Kind: "cost", Cfg: pp.name, Family: f.name, Input: fmt.Sprintf("n=%d vs n=%d", ns[k], ns[k+1])}})
+							c.Report(Finding{Class: "violation", What: fmt.Sprintf("allocation grows faster than linearly for family %q under %s: n=%d -> %d bytes / %d objects, n=%d -> %d bytes / %d objects (per input byte: x%.1f bytes, x%.1f objects, limit x%.1f; all sizes %v: %v bytes)",
+								f.name, pp.name, ns[k], bs[k], os[k], ns[l], bs[l], os[l], rb, ro, limit, ns, bs),
+								Case: Case{Kind: "cost", Cfg: pp.name, Family: f.name, Input: fmt.Sprintf("n=%d vs n=%d", ns[k], ns[l])}})
 						}
 					}
 					if pp.name == "default parser" {
@@ -198,7 +214,7 @@ func init() {
 				c.cmpParse(d, defaultCfg, bp, in, allFields, true, "cost-family:"+f.name, i)
 			})
 		},
-		rule: "26 repetition families (those of the property plus backslashes, encoded dot segments, deep relative resolution, invalid UTF-8, drive letters, tab/newline, IPv6/IPv4 digits) x n in {1Ki, 4Ki, 16Ki} (quick) up to 64Ki (thorough) x {default parser, GoogleSafeBrowsing, Semantic}; runtime.MemStats TotalAlloc and Mallocs around parse + every getter + String + SearchParams, minimum of 3 runs, GC disabled; violation when bytes or objects grow by more than 6x between n and 4n; distinct = (parser, family, n)",
+		rule: "34 repetition families (those of the property plus backslashes, encoded dot segments, deep relative resolution, invalid UTF-8, drive letters, tab/newline, IPv6/IPv4 digits) x n in {1Ki, 4Ki, 16Ki} (quick) up to 64Ki (thorough) x {default parser, GoogleSafeBrowsing, Semantic}; runtime.MemStats TotalAlloc and Mallocs around parse + every getter + String + SearchParams, minimum of 3 runs, GC disabled; after a warm-up at the largest size; violation when bytes or objects per input byte grow by more than 6x from the smallest to the largest size (quadratic growth: 16x in quick, 64x in thorough); distinct = (parser, family, n)",
 		trusted: []string{"runtime.MemStats as the measure of allocation; wall-clock time is not measured"},
 	}
 }
